@@ -27,7 +27,8 @@ CROSS = {
     "C13": [("C12", "R3_accessors", "a de-initialised fixed slot must be cleared as a dynamic one is")],
     "C14": [("C16", "R1_swap_wiring", "the v2 wrapper must hand on the updated adaptive-fee variables"),
             ("C20", "R4_fee_manager_ports", "program and SDK fee managers are each other's reference")],
-    "C16": [("xfer", "R_cpi_builders", "checked transfers carry the mint, its decimals and - iff it has a hook - the hook accounts")],
+    "C16": [("xfer", "R_cpi_builders", "checked transfers carry the mint, its decimals and - iff it has a hook - the hook accounts"),
+            ("events", "R_events", "the amounts and transfer fees reported are those of the same token side")],
     "C17": [("C14", "R4_gates", "a leg that could not trade on its own must stop the two-hop"),
             ("C15", "R1_token_accounts", "each leg's vaults are the vaults of that leg's pool")],
     "C18": [("C15", "R3_back_references", "a position is re-ranged against its own pool only")],
@@ -47,7 +48,7 @@ def apply(run, prop):
             run.missing("RX", "%s.%s" % (m, f), "cross-check needs the SDK facts")
             continue
         try:
-            if m == "xfer":
+            if m in ("xfer", "events"):
                 getattr(mod, f)(run, "RX")
             else:
                 getattr(mod, f)(RuleProxy(run, "RX"))
